@@ -418,4 +418,44 @@ theorem selected_pod {st : List Node} {nf : NodeFilter} {n : Node} (h : ¬ nf.in
     selected st nf n = (st.contains n && listable nf n && !nf.excludes.contains n.name) := by
   unfold selected; rw [if_neg h]
 
+theorem filter_disjoint_perm {α : Type} (p1 p2 : α → Bool) (l : List α)
+    (hd : ∀ a ∈ l, ¬ (p1 a = true ∧ p2 a = true)) :
+    (l.filter p1 ++ l.filter p2).Perm (l.filter fun a => p1 a || p2 a) := by
+  induction l with
+  | nil => exact List.Perm.refl _
+  | cons a l ih =>
+    have ih' := ih (fun b hb => hd b (List.mem_cons_of_mem _ hb))
+    have ha := hd a List.mem_cons_self
+    cases h1 : p1 a <;> cases h2 : p2 a
+    · simp only [List.filter_cons, h1, h2, Bool.or_self, Bool.false_eq_true, if_false]; exact ih'
+    · simp only [List.filter_cons, h1, h2, Bool.false_or, Bool.false_eq_true, if_false, if_true]
+      exact List.perm_middle.trans (List.Perm.cons a ih')
+    · simp only [List.filter_cons, h1, h2, Bool.or_false, Bool.false_eq_true, if_false, if_true, List.cons_append]
+      exact List.Perm.cons a ih'
+    · exact absurd ⟨h1, h2⟩ ha
+
+/-- listing pod by pod (pods distinct) = listing the nodes whose pod is among the pods -/
+theorem flatMap_pods_perm (q : Node → Bool) (st : List Node) : ∀ (pods : List String), pods.Nodup →
+    (pods.flatMap fun pd => st.filter fun n => n.pod == pd && q n).Perm
+      (st.filter fun n => pods.contains n.pod && q n) := by
+  intro pods
+  induction pods with
+  | nil => intro _; simp
+  | cons pd ps ih =>
+    intro hnd
+    have hnd' := List.nodup_cons.mp hnd
+    simp only [List.flatMap_cons]
+    refine (List.Perm.append_left _ (ih hnd'.2)).trans ?_
+    refine (filter_disjoint_perm _ _ st ?_).trans ?_
+    · intro a _ ⟨h1, h2⟩
+      simp only [Bool.and_eq_true, beq_iff_eq, List.contains_iff_mem] at h1 h2
+      exact hnd'.1 (h1.1 ▸ h2.1)
+    · apply List.Perm.of_eq
+      apply List.filter_congr
+      intro a _
+      by_cases h : a.pod = pd
+      · simp [h]
+      · have : (pd == a.pod) = false := by simp [Ne.symm h]
+        simp [h, List.contains_cons, this]
+
 end Eru.Lock
